@@ -154,13 +154,13 @@ def _msg_to_user(raw: bytes) -> MessageToUserTlv:
     _need(isinstance(mu, MessageToUserTlv) and isinstance(mu2, MessageToUserTlv), "not a MessageToUserTlv")
     _need(bytes(mu.value) == bytes(mu2.value) and mu == mu2, "unpack and TlvHolder.to_msg_to_user disagree")
     a, b = mu.is_reserved_cfdp_message(), mu2.is_reserved_cfdp_message()
-    _need(a is b and isinstance(a, bool), "is_reserved_cfdp_message differs between the two decoding routes")
+    _need(bool(a) == bool(b), "is_reserved_cfdp_message differs between the two decoding routes")
     return mu
 
 
 def _reserved_of(raw: bytes) -> Optional[ReservedCfdpMessage]:
     mu = _msg_to_user(raw)
-    flag = mu.is_reserved_cfdp_message()
+    flag = bool(mu.is_reserved_cfdp_message())
     r = mu.to_reserved_msg_tlv()
     _need((r is not None) == flag, "to_reserved_msg_tlv() is None exactly when the message is not reserved: violated")
     if r is not None:
@@ -178,8 +178,7 @@ def op_is_reserved(a):
 def op_is_reserved_value(a):
     v = unhx(a["value"])
     mu = MessageToUserTlv(v)
-    flag = mu.is_reserved_cfdp_message()
-    _need(isinstance(flag, bool), "is_reserved_cfdp_message does not return a bool")
+    flag = bool(mu.is_reserved_cfdp_message())
     if not flag:
         _need(mu.to_reserved_msg_tlv() is None, "to_reserved_msg_tlv of a non-reserved message is not None")
     return {"reserved": flag}
@@ -192,18 +191,34 @@ def op_to_reserved(a):
     return {"none": False, **_classify(r)}
 
 
+def _lenient(a, fn):
+    """`lenient`: a truncated message for which refusal with ValueError and decoding the octets that are there
+    are both allowed by the property; only an undocumented exception is then a difference"""
+    if not a.get("lenient"):
+        return fn()
+    try:
+        fn()
+    except ValueError:
+        pass
+    return {"lenient": True}
+
+
 def op_get(a):
-    r = _reserved_of(unhx(a["raw"]))
-    if r is None:
-        return {"reserved": False}
-    return {"reserved": True, "res": GET[a["getter"]](r)}
+    def run():
+        r = _reserved_of(unhx(a["raw"]))
+        if r is None:
+            return {"reserved": False}
+        return {"reserved": True, "res": GET[a["getter"]](r)}
+    return _lenient(a, run)
 
 
 def op_view(a):
-    r = _reserved_of(unhx(a["raw"]))
-    if r is None:
-        return {"reserved": False}
-    return {"reserved": True, "view": _view(r)}
+    def run():
+        r = _reserved_of(unhx(a["raw"]))
+        if r is None:
+            return {"reserved": False}
+        return {"reserved": True, "view": _view(r)}
+    return _lenient(a, run)
 
 
 def op_new(a):
@@ -286,7 +301,7 @@ def op_b_dir_response(a):
 
     def same(r2):
         x = r2.get_dir_listing_response_params()
-        _need(x is not None and x[0] is a["success"] and x[1] == p, "decoded listing response != original")
+        _need(x is not None and bool(x[0]) == a["success"] and x[1] == p, "decoded listing response != original")
     return _roundtrip(DirectoryListingResponse(a["success"], p), a, same)
 
 
@@ -417,6 +432,39 @@ def v_dir_resp(ok, p, n):
     return MARKER + b"\x11" + bytes([0x80 if ok else 0]) + lv(p) + lv(n)
 
 
+def orig_truncated(v: bytes) -> bool:
+    """an originating-ID message whose width octet announces more octets than the value carries"""
+    if len(v) < 6 or v[:5] != MARKER + b"\x0a":
+        return False
+    return len(v) < 6 + ((v[5] >> 4) & 7) + 1 + (v[5] & 7) + 1
+
+
+def get_case(v: bytes, getter: str, expect: str, tag: str, errclass: bool = False, more: bytes = b"") -> Case:
+    """rsv_get on the TLV of value v; truncated originating-ID messages are compared leniently"""
+    op = {"op": "rsv_get", "raw": hx(tlv(v) + more), "getter": getter}
+    if getter == "orig_id" and orig_truncated(v):
+        op["lenient"] = True
+        return Case(op, "valid", tag=tag + "-lenient")
+    return Case(op, expect, errclass=errclass, tag=tag)
+
+
+def raw_view_case(raw: bytes, expect: str, tag: str) -> Case:
+    """rsv_view on arbitrary octets; lenient when they happen to hold a truncated originating-ID message"""
+    op = {"op": "rsv_view", "raw": hx(raw)}
+    if len(raw) >= 2 and raw[0] == 2 and len(raw) >= 2 + raw[1] and orig_truncated(raw[2:2 + raw[1]]):
+        op["lenient"] = True
+        return Case(op, "valid", tag=tag + "-lenient")
+    return Case(op, expect, tag=tag)
+
+
+def view_case(v: bytes, expect: str, tag: str) -> Case:
+    op = {"op": "rsv_view", "raw": hx(tlv(v))}
+    if orig_truncated(v):
+        op["lenient"] = True
+        return Case(op, "valid", tag=tag + "-lenient")
+    return Case(op, expect, tag=tag)
+
+
 def ivals(w: int, rng: random.Random) -> List[int]:
     return pool(256 ** w - 1, rng, extra=1)
 
@@ -507,7 +555,7 @@ class C18(Prop):
     # ------------------------------------------------------------------------------------------
     def cases(self, rng: random.Random, tier: str) -> Iterator[Case]:
         thorough = tier == "thorough"
-        R = 12 if thorough else 1
+        R = 60 if thorough else 3
         yield from self.gen_put_request(rng, R, thorough)
         yield from self.gen_orig_id(rng, R)
         yield from self.gen_small_builders(rng, R)
@@ -734,8 +782,7 @@ class C18(Prop):
             yield Case({"op": "rsv_get", "raw": hx(tlv(MARKER + b"\x0a" + o + body + b"\x99")), "getter": "orig_id"},
                        "valid" if ok else "invalid", tag="orig-width-octet-sweep-longer")
             for cut in (1, 2, sl + ql):
-                yield Case({"op": "rsv_get", "raw": hx(tlv(MARKER + b"\x0a" + o + body[: sl + ql - cut])), "getter": "orig_id"},
-                           "any", tag="orig-width-octet-sweep-short")
+                yield get_case(MARKER + b"\x0a" + o + body[: sl + ql - cut], "orig_id", "any", "orig-width-octet-sweep-short")
         # the six getters that need the parameter octet refuse a bare header with ValueError
         for t, g in ((0x0a, "orig_id"), (7, "put_resp"), (0x0b, "closure"), (4, "tx_mode"), (0x11, "dir_resp"),
                      (0x15, "dir_opts"), (0, "put_req"), (0x10, "dir_req")):
@@ -765,20 +812,20 @@ class C18(Prop):
             yield Case({"op": "rsv_view", "raw": hx(raw)}, "valid", tag="sample")
             for k in range(len(v)):
                 # the value cut short inside a well-formed TLV
-                yield Case({"op": "rsv_get", "raw": hx(tlv(v[:k])), "getter": g}, "any", tag="value-truncation")
-                yield Case({"op": "rsv_view", "raw": hx(tlv(v[:k]))}, "any", tag="value-truncation")
+                yield get_case(v[:k], g, "any", "value-truncation")
+                yield view_case(v[:k], "any", "value-truncation")
             for k in range(len(raw)):
                 # the TLV itself cut short
                 yield Case({"op": "rsv_get", "raw": hx(raw[:k]), "getter": g}, "invalid", tag="tlv-truncation")
             for x in (0, 1, len(v) - 1, len(v) + 1, 255):
                 b = bytearray(raw)
                 b[1] = x & 0xFF
-                yield Case({"op": "rsv_view", "raw": hx(bytes(b) + unhx(sfx(rng)))}, "any", tag="tlv-length-subst")
+                yield raw_view_case(bytes(b) + unhx(sfx(rng)), "any", "tlv-length-subst")
             for i in range(5, len(v)):
                 for x in {0, 1, v[i] - 1, v[i] + 1, len(v) - i - 1, len(v) - i, len(v) - i - 2, 255, rng.randrange(256)}:
                     b = bytearray(v)
                     b[i] = x & 0xFF
-                    yield Case({"op": "rsv_get", "raw": hx(tlv(bytes(b))), "getter": g}, "any", tag="octet-subst")
+                    yield get_case(bytes(b), g, "any", "octet-subst")
         # put request: the value ends right after the first / second LV -> None, never an error
         for w in W:
             ident = lv(be(w, rng.randrange(256 ** w)))
@@ -796,11 +843,11 @@ class C18(Prop):
             tail = rbytes(rng, rng.choice([0, 1, 2, 3, 5, 9, 17, 18, 30]))
             if rng.random() < 0.5 and len(tail) > 1:
                 tail = bytes([rng.choice([0, 1, len(tail) - 2, len(tail) - 1, len(tail), 0x33, 0x77])]) + tail[1:]
-            yield Case({"op": "rsv_get", "raw": hx(tlv(MARKER + bytes([t]) + tail)), "getter": OWN[t]}, "any", tag="random-tail")
+            yield get_case(MARKER + bytes([t]) + tail, OWN[t], "any", "random-tail")
         for _ in range(200 * R):
-            yield Case({"op": "rsv_view", "raw": hx(rbytes(rng, rng.choice([0, 1, 2, 3, 7, 8, 20])))}, "any", tag="random-octets")
+            yield raw_view_case(rbytes(rng, rng.choice([0, 1, 2, 3, 7, 8, 20])), "any", "random-octets")
             raw = bytes([2, rng.randrange(12)]) + MARKER + rbytes(rng, rng.randrange(8))
-            yield Case({"op": "rsv_view", "raw": hx(raw)}, "any", tag="random-octets")
+            yield raw_view_case(raw, "any", "random-octets")
 
     # -- parameter records: *_as_str, from_strs -----------------------------------------------------------------------------
     def gen_records(self, rng, R):
